@@ -1,4 +1,5 @@
 import SakuraVerif.Model.Tie
+import SakuraVerif.Lemmas.ExecTie
 /-! # C13 — ties and slurs join notes as documented
 
 The four flush functions of `runner.rs` are modelled as pure functions from the tied group (the
@@ -152,5 +153,26 @@ example : tieGate 0 [n 0 60 86, n 96 60 86, n 192 62 86] = [n 0 60 192, n 192 62
 example : tieAlpe [n 0 60 86, n 96 64 86, n 192 67 86] = [n 0 60 278, n 96 64 182, n 192 67 86] := by decide
 example : (tieBend 0 (-1) [n 0 60 86, n 96 62 86, n 192 60 86]).1
     = [bendRangeEvent 0 0 12, bendEvent 0 0 8192, bendEvent 96 0 9557, bendEvent 192 0 8192, n 0 60 278, bendEvent 278 0 8192] := by decide
+
+/-! ## on the literal runner model (`Model.Exec`, tied by the `exec` stream): the tie mark decides what is written, nothing else -/
+
+/-- **the time pointer advances exactly as it would without `&`** — and so does everything else that is not output: the same note with
+    and without the tie mark (any tie argument `x`) leaves the same Random seed, octave-once state, song-level settings, settings of
+    the track and all other tracks; only the track's event list, its pending group and the bend range sent by a flush may differ.
+    For every state outside a chord and every note token (any arguments, Random settings on or off). -/
+theorem C13_tie_mark_moves_nothing (s : Ex2.Song) (tk : Lx.Tok) (x : Lx.SV) (hh : s.harmonyFlag = false) (hc : s.cur < s.tracks.length) :
+    Ex2.sameButWritten (Ex2.execNote s (Ex2.withTie tk x)) (Ex2.execNote s tk) :=
+  Ex2.execNote_tie_irrelevant s tk x hh hc
+
+theorem C13_pointer_with_tie (s : Ex2.Song) (tk : Lx.Tok) (x : Lx.SV) (hh : s.harmonyFlag = false) (hc : s.cur < s.tracks.length) :
+    (Ex2.execNote s (Ex2.withTie tk x)).t.timepos = (Ex2.execNote s tk).t.timepos ∧
+      (Ex2.execNote s (Ex2.withTie tk x)).seed = (Ex2.execNote s tk).seed := by
+  obtain ⟨h1, _, _, h4⟩ := Ex2.execNote_tie_irrelevant s tk x hh hc
+  have a := congrArg (fun t : Ex2.Trk => t.timepos) h4
+  have b := congrArg (fun z : Ex2.Song => z.seed) h1
+  exact ⟨a, b⟩
+
+-- non-vacuity: the fresh song is outside a chord and its selected track exists
+example : ({} : Ex2.Song).harmonyFlag = false ∧ ({} : Ex2.Song).cur < ({} : Ex2.Song).tracks.length := by decide
 
 end Sakura.Props.C13
